@@ -94,15 +94,33 @@ def grad_name(obj):
     return obj.lower() + "_grad"
 
 
+def handle_param(fn):
+    """name and kind of the extra parameter of a handle (third argument, positional or keyword-only), or None"""
+    ps = list(inspect.signature(fn).parameters.values())
+    if len(ps) == 3:
+        return ps[2]
+    return None
+
+
 def has_param(fn) -> bool:
-    return len(inspect.signature(fn).parameters) == 3
+    return handle_param(fn) is not None
+
+
+def call_handle(fn, xs, ms, p):
+    """handle(data, model[, parameter]) whatever the spelling of the parameter in the signature"""
+    hp = handle_param(fn)
+    if hp is None:
+        return fn(xs, ms)
+    if hp.kind is inspect.Parameter.KEYWORD_ONLY:
+        return fn(xs, ms, **{hp.name: p})
+    return fn(xs, ms, p)
 
 
 def py_handle(name, x, p, m):
     fn = getattr(handles, name)
     xs, ms = np.array([float(x)]), np.array([float(m)])
     with np.errstate(all="ignore"):
-        out = fn(xs, ms, float(p)) if has_param(fn) else fn(xs, ms)
+        out = call_handle(fn, xs, ms, float(p))
     return float(np.asarray(out, dtype=float).reshape(-1)[0])
 
 
@@ -125,9 +143,18 @@ def x_points(rng, obj, n_rand):
 
 
 def expr_requests(items):
-    """items: (name, deriv, x, p, m) -> one gcp_expr request each"""
-    return [{"op": "gcp_expr", "name": n, "deriv": d,
-             "pts": [[fbits(x), fbits(0.0 if p is None else p), fbits(m)]]} for (n, d, x, p, m) in items]
+    """items: (name, deriv, x, p, m) -> one gcp_expr request each; `name` is a Python handle name or a cell of
+    the selection table ("@fn:OBJECTIVE" / "@grad:OBJECTIVE": what fg_setup.setup returns, however wrapped)"""
+    out = []
+    for (n, d, x, p, m) in items:
+        r = {"op": "gcp_expr", "deriv": d, "pts": [[fbits(x), fbits(0.0 if p is None else p), fbits(m)]]}
+        if n.startswith("@"):
+            which, obj = n[1:].split(":")
+            r["obj"], r["which"] = obj, which
+        else:
+            r["name"] = n
+        out.append(r)
+    return out
 
 
 def same_double(a, b, tol):
@@ -219,27 +246,25 @@ class DerivativeGrid(Family):
             warnings.simplefilter("ignore")
             return fg_setup.setup(Objectives[obj], None, p)
 
-    @staticmethod
-    def _base_name(h):
-        return (h.func if isinstance(h, functools.partial) else h).__name__
-
     def evaluate(self, cases):
-        # the pair under test is whatever fg_setup.setup returns for the objective
+        # the pair under test is whatever fg_setup.setup returns for the objective (the generated selection table
+        # has one cell per returned handle, whether the source wraps it in partial, a lambda or nothing)
         setups = {}
         for c in cases:
             key = (c["obj"], c["p"])
             if key not in setups:
                 setups[key] = call(self._setup, c["obj"], c["p"])
+        table = {r["objective"]: r for r in drive([{"op": "gcp_table"}])[0]}
         reqs, names = [], []
         for c in cases:
-            st = setups[(c["obj"], c["p"])]
-            if "ok" in st:
-                ln, gn = self._base_name(st["ok"][0]), self._base_name(st["ok"][1])
-            else:
-                ln, gn = loss_name(c["obj"]), grad_name(c["obj"])
-            names.append((ln, gn))
-            reqs += expr_requests([(ln, True, c["x"], c["p"], c["m"]), (gn, False, c["x"], c["p"], c["m"])])
-        models = drive(reqs)
+            row = table.get(c["obj"], {})
+            names.append((row.get("fn") or loss_name(c["obj"]), row.get("grad") or grad_name(c["obj"])))
+            reqs += expr_requests([("@fn:" + c["obj"], True, c["x"], c["p"], c["m"]),
+                                   ("@grad:" + c["obj"], False, c["x"], c["p"], c["m"]),
+                                   ("@fn:" + c["obj"], False, c["x"], c["p"], c["m"])])
+        models3 = drive(reqs)
+        models = [mo for j, mo in enumerate(models3) if j % 3 != 2]
+        cells = models3[2::3]
         out = []
         for i, c in enumerate(cases):
             obj, x, p, m = c["obj"], c["x"], c["p"], c["m"]
@@ -263,6 +288,7 @@ class DerivativeGrid(Family):
                 xs = np.array([float(x)])
                 with np.errstate(all="ignore"):
                     g = float(np.asarray(gr(xs, np.array([float(m)])), dtype=float).reshape(-1)[0])
+                    f0 = float(np.asarray(fn(xs, np.array([float(m)])), dtype=float).reshape(-1)[0])
 
                     def f(mm):
                         return float(np.asarray(fn(xs, np.array([float(mm)])), dtype=float).reshape(-1)[0])
@@ -278,7 +304,7 @@ class DerivativeGrid(Family):
                         fd_tol = 1e-6 * (1 + abs(g)) + 1e-14 * max(abs(v) for v in vals) / h
                     else:
                         fd_tol = None
-                return {"g": g, "fd": fd, "fd_tol": fd_tol, "lb": float(lb)}
+                return {"g": g, "f": f0, "fd": fd, "fd_tol": fd_tol, "lb": float(lb)}
 
             impl = call(run)
             if "ok" not in impl:
@@ -292,6 +318,15 @@ class DerivativeGrid(Family):
                                    r["lb"], lower, lower, tags))
                 continue
             tol = 1e-9 * ((magd if math.isfinite(magd) else abs(d)) + (magg if math.isfinite(magg) else abs(g))) + 1e-300
+            # the generated table cells are the functions setup returned (translator fidelity, wrappers included)
+            cf, magf = unbits(cells[i][0][0]), unbits(cells[i][0][1])
+            cg = unbits(models[2 * i + 1][0][0])
+            if not same_double(r["f"], cf, 1e-12 * (abs(magf) if math.isfinite(magf) else abs(cf)) + 1e-300) or \
+                    not same_double(g, cg, 1e-12 * (abs(magg) if math.isfinite(magg) else abs(cg)) + 1e-300):
+                out.append(Verdict("corr", f"{obj}: what fg_setup.setup returns evaluates to loss {r['f']!r} / gradient "
+                                           f"{g!r}, the generated table cells {ln} / {gn} to {cf!r} / {cg!r} at data={x} "
+                                           f"param={p} model={m}", [repr(r["f"]), repr(g)], [repr(cf), repr(cg)], None, tags))
+                continue
             kind = "fd" if r["fd"] is not None else "nofd"
             if obj == "HUBER":
                 kind += ":kink" if abs(x - m) == p else (":in" if abs(x - m) < p else ":out")
@@ -394,26 +429,45 @@ class TablePairing(Family):
                     warnings.simplefilter("ignore")
                     fh, gh, lb = fg_setup.setup(Objectives[obj], None, p)
                 names, bound = [], False
-                for h in (fh, gh):
+                xs, ms = np.array([1.0, 2.0, 0.5, 3.0]), np.array([0.5, 1.5, 3.0, 0.25])
+                cands = [(n, f) for n, f in vars(handles).items()
+                         if inspect.isfunction(f) and f.__module__ == handles.__name__ and not n.startswith("_")
+                         and len(inspect.signature(f).parameters) in (2, 3)]
+                for h, own in zip((fh, gh), (loss_name(obj), grad_name(obj))):
                     if isinstance(h, functools.partial):
                         base = h.func
-                        pname = list(inspect.signature(base).parameters)[2]
-                        if h.args or h.keywords != {pname: p}:
+                        hp = handle_param(base)
+                        if hp is None or h.args or h.keywords != {hp.name: p}:
                             raise AssertionError(f"partial binds {h.keywords}")
                         bound = True
-                    else:
+                    elif getattr(handles, getattr(h, "__name__", ""), None) is h:
                         base = h
                         if has_param(base):
                             raise AssertionError("parameter not bound")
+                    else:
+                        # a lambda / closure: which handle of handles.py it computes is decided by what it returns
+                        # (the objective's own handle is tried first)
+                        base = None
+                        with np.errstate(all="ignore"):
+                            got = np.asarray(h(xs, ms))
+                            for n, f in sorted(cands, key=lambda nf: nf[0] != own):
+                                if has_param(f) and p is None:
+                                    continue
+                                want = np.asarray(call_handle(f, xs, ms, p))
+                                if want.shape == got.shape and np.array_equal(want, got):
+                                    base = f
+                                    break
+                        if base is None:
+                            raise AssertionError("the returned callable computes none of the handles of handles.py")
+                        bound = bound or has_param(base)
                     if getattr(handles, base.__name__, None) is not base:
                         raise AssertionError("not a handle of handles.py")
                     names.append(base.__name__)
                 # the returned callables really are those handles
-                xs, ms = np.array([1.0, 2.0]), np.array([0.5, 1.5])
                 with np.errstate(all="ignore"):
                     for h, n in zip((fh, gh), names):
                         base = getattr(handles, n)
-                        want = base(xs, ms, p) if has_param(base) else base(xs, ms)
+                        want = call_handle(base, xs, ms, p)
                         if not np.array_equal(np.asarray(h(xs, ms)), np.asarray(want)):
                             raise AssertionError("returned handle computes something else")
                 return {"fn": names[0], "grad": names[1], "lower": jnum(float(lb)), "hasParam": bound}
